@@ -28,4 +28,8 @@ def run(prog, rep, tier):
     apply(rep, "Y5", "no throw through bison/flex C frames", r_life.y5(prog), 2)
     import r_pure as _rpq
     apply(rep, "Q4c", "a copied sequence owns its elements: `add` moves elements out of / appends into storage that no other live value can reach (no null element, no growth behind another holder's back)", _rpq.q4c(prog), 3)
+    import r_aset
+    h7 = r_aset.h7(prog, tier)
+    apply(rep, "M7", "coverage.cc and the address-set words interpreted on every set over a small universe: no access outside a vector, no use (dereference, comparison, erase) of an iterator that an insertion or erasure has invalidated",
+          h7 if getattr(h7, "broken", None) else ([i_ for i_ in h7[0] if i_[0].startswith(("H7:coverage::", "H7:word:"))], [f_ for f_ in h7[1] if "(memory error)" in f_["msg"]]), 5)
     maybe_mutants("C13", rep, tier)
